@@ -70,6 +70,9 @@ pub enum Native {
 	/// a Boxed collection that OWNS that shared `[Vec<RwLock>; 2]` data (so it must be the first spec built in its
 	/// world; the other `Vecs*` shapes then borrow the data from its `child()`): 0 = `new`, 1 = `From`, 2 = `try_new`
 	VecsOwnedBoxed(u8),
+	/// checked constructors over references into the world's shared `ZBlock`: `true` = `(&zero_sized, &l0, &l1, &l2)`
+	/// (the zero-sized member has the address of `l0`), `false` = `[&l0, &l1, &l2]`
+	ZstFront(Kind, bool),
 	/// `[&RwLock; 3]` through the `unsafe` `new_unchecked` constructors (duplicate-free by construction here)
 	Arr3Unchecked(Kind, [usize; 3]),
 	/// the shared descending owned unit itself, and Boxed::new_ref / Ref::new / Retrying::new_ref over a reference to it
@@ -110,7 +113,7 @@ impl Spec {
 		match self {
 			Spec::Coll(Kind::Retry, _) => true,
 			Spec::Pois(i) => i.retrying(),
-			Spec::Native(n) => matches!(n, Native::Arr3(Kind::Retry, _) | Native::Arr3Unchecked(Kind::Retry, _) | Native::TupMR(Kind::Retry, ..) | Native::Slice(Kind::Retry, _) | Native::NewOW(Kind::Retry, _) | Native::VecsNew(Kind::Retry) | Native::VecsRefs(Kind::Retry) | Native::MutRefs(2, _) | Native::MutRefsVia(2, ..) | Native::TupN(2, _) | Native::ZstOwned(2, _) | Native::OwnedDescIn(Kind::Retry, _) | Native::OwnedDescRef(Kind::Retry, _) | Native::ZstPair(Kind::Retry) | Native::ZstAround(Kind::Retry, ..) | Native::RetryNewVec(_) | Native::RetryNewArr3 | Native::RetryOwnedR(_)),
+			Spec::Native(n) => matches!(n, Native::Arr3(Kind::Retry, _) | Native::Arr3Unchecked(Kind::Retry, _) | Native::TupMR(Kind::Retry, ..) | Native::Slice(Kind::Retry, _) | Native::NewOW(Kind::Retry, _) | Native::VecsNew(Kind::Retry) | Native::VecsRefs(Kind::Retry) | Native::MutRefs(2, _) | Native::MutRefsVia(2, ..) | Native::TupN(2, _) | Native::ZstOwned(2, _) | Native::OwnedDescIn(Kind::Retry, _) | Native::OwnedDescRef(Kind::Retry, _) | Native::ZstPair(Kind::Retry) | Native::ZstAround(Kind::Retry, ..) | Native::ZstFront(Kind::Retry, _) | Native::RetryNewVec(_) | Native::RetryNewArr3 | Native::RetryOwnedR(_)),
 			_ => false,
 		}
 	}
@@ -190,7 +193,7 @@ impl Spec {
 			Spec::Native(n) => {
 				let s = format!("{:?}", n);
 				s.split(|c| c == '(' || c == '[').next().unwrap().to_string() + &match n {
-					Native::Arr3(k, _) | Native::Arr3Unchecked(k, _) | Native::TupMR(k, ..) | Native::Slice(k, _) | Native::NewOW(k, _) | Native::VecsNew(k) | Native::VecsRefs(k) | Native::ZstPair(k) | Native::ZstAround(k, ..) | Native::OwnedDescIn(k, _) | Native::OwnedDescRef(k, _) => format!("<{}>", k.short()),
+					Native::Arr3(k, _) | Native::Arr3Unchecked(k, _) | Native::TupMR(k, ..) | Native::Slice(k, _) | Native::NewOW(k, _) | Native::VecsNew(k) | Native::VecsRefs(k) | Native::ZstPair(k) | Native::ZstAround(k, ..) | Native::OwnedDescIn(k, _) | Native::OwnedDescRef(k, _) | Native::ZstFront(k, _) => format!("<{}>", k.short()),
 					_ => String::new(),
 				}
 			}
@@ -220,13 +223,14 @@ pub struct World<'w> {
 	/// shared owned data for the Vecs* native shapes: ([hi_vec, lo_vec], leaf ids of hi, leaf ids of lo)
 	pub vecs: RefCell<Option<(&'w [Vec<R>; 2], Vec<u32>, Vec<u32>)>>,
 	pub vecs_owner: RefCell<Option<&'w BoxedLockCollection<[Vec<R>; 2]>>>,
+	pub zblock: RefCell<Option<(&'w crate::world::ZBlock, Vec<u32>)>>,
 	/// shared owned unit whose `n` `&mut` members are listed in descending address order: (unit, leaves as listed)
 	pub owned_desc: RefCell<Option<(usize, &'w OwnedLockCollection<Vec<&'w mut R>>, Vec<u32>)>>,
 }
 
 impl<'w> World<'w> {
 	pub fn new(arena: &'w Arena, store: &'w Store) -> Self {
-		World { arena, store, next_id: Cell::new(ARENA_TOTAL), is_rw: RefCell::new(Arena::is_rw_table()), unit: RefCell::new(Arena::unit_table()), next_unit: Cell::new(100), vecs: RefCell::new(None), vecs_owner: RefCell::new(None), owned_desc: RefCell::new(None) }
+		World { arena, store, next_id: Cell::new(ARENA_TOTAL), is_rw: RefCell::new(Arena::is_rw_table()), unit: RefCell::new(Arena::unit_table()), next_unit: Cell::new(100), vecs: RefCell::new(None), vecs_owner: RefCell::new(None), zblock: RefCell::new(None), owned_desc: RefCell::new(None) }
 	}
 	fn fresh(&self, rw: bool, unit: u32) -> u32 {
 		let id = self.next_id.get();
@@ -376,6 +380,17 @@ impl<'w> World<'w> {
 			}
 		}
 		([hi, lo], hi_ids, lo_ids)
+	}
+
+	/// The world's shared block of a zero-sized member and three locks (leaf ids in address order).
+	fn shared_zblock(&self) -> (&'w crate::world::ZBlock, Vec<u32>) {
+		if let Some((b, ids)) = self.zblock.borrow().as_ref() {
+			return (*b, ids.clone());
+		}
+		let ids: Vec<u32> = (0..3).map(|_| self.fresh(true, 0)).collect();
+		let b: &'w crate::world::ZBlock = self.store.stash(crate::world::ZBlock { z: OwnedLockCollection::new([]), locks: [reg_r(ids[0]), reg_r(ids[1]), reg_r(ids[2])] });
+		*self.zblock.borrow_mut() = Some((b, ids.clone()));
+		(b, ids)
 	}
 
 	/// The world's shared descending owned unit (one size per world).
@@ -674,6 +689,25 @@ impl<'w> World<'w> {
 					let (data, hi, lo) = self.shared_vecs();
 					leaves = hi.iter().chain(lo.iter()).copied().collect();
 					st.stash(RefLockCollection::from(data))
+				}
+				Native::ZstFront(k, with_zst) => {
+					let (b, ids) = self.shared_zblock();
+					leaves = ids;
+					if *with_zst {
+						let t: crate::world::ZTup<'w> = (&b.z, &b.locks[0], &b.locks[1], &b.locks[2]);
+						match k {
+							Kind::Boxed => st.stash(BoxedLockCollection::try_new(t)?),
+							Kind::Ref => st.stash(RefLockCollection::try_new(st.stash(t))?),
+							Kind::Retry => st.stash(RetryingLockCollection::try_new(t)?),
+						}
+					} else {
+						let arr: [&R; 3] = [&b.locks[0], &b.locks[1], &b.locks[2]];
+						match k {
+							Kind::Boxed => st.stash(BoxedLockCollection::try_new(arr)?),
+							Kind::Ref => st.stash(RefLockCollection::try_new(st.stash(arr))?),
+							Kind::Retry => st.stash(RetryingLockCollection::try_new(arr)?),
+						}
+					}
 				}
 				Native::VecsOwnedBoxed(via) => {
 					let (b, hi, lo) = self.shared_vecs_owned(*via);
